@@ -185,6 +185,32 @@ theorem bvh_leaves_perm (split : List (List Nat) → Nat × Nat)
     ∃ t, newBVH split n sorted = some t ∧ t.leaves.Perm (List.range n) :=
   newBVH_perm split hsp n sorted _ h (by simpa using hn) (by simp)
 
+omit [IsStrictOrderedRing K] in
+/-- **`areaDensityBVHSplit` cuts strictly inside**: on at least three faces the returned index satisfies
+`2 ≤ index < len(faces)`, for every area function and every scores — `newBVH` always recurses on two non-empty
+halves. -/
+theorem area_density_split_in_range {β : Type} (union : β → β → β) (area : β → K) (cnt : Nat → K)
+    (boxes : List β) (h : 3 ≤ boxes.length) :
+    2 ≤ (areaDensitySplit union area cnt boxes).1 ∧ (areaDensitySplit union area cnt boxes).1 < boxes.length :=
+  areaDensitySplit_range union area cnt boxes h
+
+omit [IsStrictOrderedRing K] in
+/-- **`NewBVHAreaDensity` end to end, with the REAL split rule** (`bvhSplit`: `areaDensityBVHSplit` on every axis,
+then the axis with the strictly smallest score, 2D and 3D; `area` / `cnt` arbitrary, in the code `boundsArea` and
+`float64(·)`): whatever the per-axis sorts produced, the construction terminates with a tree whose leaves are a
+permutation of the objects — every object exactly once.  (The `bvhx` kind replays this very function against the
+tree the library builds.) -/
+theorem bvh_area_density_perm {β : Type} (union : β → β → β) (area : β → K) (cnt : Nat → K) (boxOf : Nat → β)
+    (sorted : List (List Nat)) (n : Nat) (hn : 0 < n) (hd : sorted.length = 2 ∨ sorted.length = 3)
+    (h : SortedInv sorted (List.range n)) :
+    ∃ t, newBVH (bvhSplit union area cnt boxOf) n sorted = some t ∧ t.leaves.Perm (List.range n) := by
+  refine newBVH_perm_of sorted.length _ ?_ n sorted _ h rfl (by simpa using hn) (by simp)
+  intro s b hs hl h3
+  refine bvhSplit_range union area cnt boxOf s (by rw [hl]; exact hd) ?_ h3
+  intro l hl'
+  have h0 : (s.getD 0 []).Perm b := getD_of_ne_nil hs 0 (List.length_pos_of_ne_nil hs.2.1)
+  rw [(hs.2.2 l hl').length_eq, h0.length_eq]
+
 /-- **`NewJoinedCollider` (with the flattening of equal-bounds children) keeps exactly the same
 leaves in the same order.** -/
 theorem flatten_same_leaves {ι β : Type} [DecidableEq β] (flatten : Bool) (boxOf : ι → β)
@@ -375,6 +401,33 @@ theorem multi2_segment_eq (p q : V2 K) (f : Forest (Leaf2 K) (Box2 K)) (h : WF2 
     joinedSeg2 p q f = f.items.any (fun l => l.seg p q) := joinedSeg2_eq p q f h
 theorem multi2_rect_eq (r : Box2 K) (f : Forest (Leaf2 K) (Box2 K)) (h : WF2 f) :
     joinedRect2 r f = f.items.any (fun l => l.rect r) := joinedRect2_eq r f h
+
+/-- **A box query reaches the leaves unchanged**: `RectCollision(r)` of a mesh collider is `true` exactly when
+one of its triangles / segments / member colliders answers `true` to the caller's box `r` ITSELF — the leaves'
+own tests (for `Triangle.RectCollision`: the triangle's edges against the box and the box's edges against the
+triangle) run on `r`, not on a box derived from it.  (`multi_rect_eq` in `∃` form; the intersection
+`r.clip node` computed by the overlap test decides only whether to descend.) -/
+theorem multi_rect_iff (r : Box3 K) (f : Forest (Leaf3 K) (Box3 K)) (h : WF3 f) :
+    joinedRect3 r f = true ↔ ∃ l ∈ f.items, l.rect r = true := by
+  rw [multi_rect_eq r f h, List.any_eq_true]
+theorem multi2_rect_iff (r : Box2 K) (f : Forest (Leaf2 K) (Box2 K)) (h : WF2 f) :
+    joinedRect2 r f = true ↔ ∃ l ∈ f.items, l.rect r = true := by
+  rw [multi2_rect_eq r f h, List.any_eq_true]
+
+/-- **The corners computed by `RectCollision`'s overlap test are the intersection of the two boxes** — as a
+statement about point sets.  This is why handing the children `r.clip node` instead of `r` LOOKS harmless; it is
+not, because a leaf is asked about a box through edge tests, not about a point set: under a node of zero
+thickness the clipped box is flat, its edges lie in the plane of the faces, and a face pierced by `r` in its
+interior is no longer found (see the example `flat node` below).  The property demands the scan over the leaves
+with the caller's box (`multi_rect_iff`). -/
+theorem clip_contains (r b : Box3 K) (p : V3 K) :
+    (r.clip b).Contains p ↔ r.Contains p ∧ b.Contains p := by
+  simp only [Box3.clip, Box3.Contains, V3.max, V3.min, smin_eq_min, smax_eq_max, max_le_iff, le_min_iff]
+  tauto
+theorem clip_contains2 (r b : Box2 K) (p : V2 K) :
+    (r.clip b).Contains p ↔ r.Contains p ∧ b.Contains p := by
+  simp only [Box2.clip, Box2.Contains, V2.max, V2.min, smin_eq_min, smax_eq_max, max_le_iff, le_min_iff]
+  tauto
 
 /-- **`MeshToCollider` end to end**: number the triangles `0..n-1` (`leafOf`), group them in ANY
 order `order` that is a permutation of the indices (by `group_bounders_perm` the output of
@@ -705,6 +758,53 @@ example :
   rw [nary_bvh_collider_ray t hs]
   decide +kernel
 
+/-- A sound leaf that answers a box query the way `Triangle.RectCollision` does for an axis-aligned face: the
+rectangle `[x0,x1] × [0,1]` in the plane `z = 0`; it reports a collision when the vertical edge of the query box
+at its `(min.x, min.y)` corner has positive length and pierces the rectangle (an EDGE test, not a point-set test). -/
+def floorLeaf (id : Nat) (x0 x1 : Rat) : Leaf3 Rat :=
+  { id := id, box := ⟨⟨x0, 0, 0⟩, ⟨x1, 1, 0⟩⟩,
+    ray := fun _ _ => [], first := fun _ _ => none, sphere := fun _ _ => false, seg := fun _ _ => false,
+    rect := fun r => decide (r.min.z < r.max.z) && decide (r.min.z ≤ 0) && decide (0 ≤ r.max.z) &&
+      decide (x0 ≤ r.min.x) && decide (r.min.x ≤ x1) && decide (0 ≤ r.min.y) && decide (r.min.y ≤ 1) &&
+      decide (r.min.x ≤ r.max.x) && decide (r.min.y ≤ r.max.y),
+    tri := fun _ _ _ => [] }
+
+theorem floorLeaf_sound (id : Nat) (x0 x1 : Rat) : LeafSound3 (floorLeaf id x0 x1) where
+  ray := by intro o d h hh; simp [floorLeaf] at hh
+  first := by intro o d h hh; simp [floorLeaf] at hh
+  sphere := by intro c r hh; simp [floorLeaf] at hh
+  seg := by intro p q hh; simp [floorLeaf] at hh
+  rect := by
+    intro r hh
+    simp only [floorLeaf, Bool.and_eq_true, decide_eq_true_eq] at hh
+    obtain ⟨⟨⟨⟨⟨⟨⟨⟨h1, h2⟩, h3⟩, h4⟩, h5⟩, h6⟩, h7⟩, h8⟩, h9⟩ := hh
+    exact ⟨⟨r.min.x, r.min.y, 0⟩, ⟨⟨h4, h5⟩, ⟨h6, h7⟩, le_refl _, le_refl _⟩,
+      ⟨⟨le_refl _, h8⟩, ⟨le_refl _, h9⟩, h2, h3⟩⟩
+  tri := by intro a b c hh; simp [floorLeaf] at hh
+
+/-- `flat node`: a floor of two coplanar faces — the node over them has ZERO thickness — and a small box that
+straddles the floor over the interior of the first face.  The hierarchy is well formed, the real traversal (children
+asked the caller's box) reports the collision, as the scan over the faces does; every face asked the box CLIPPED to
+the node's bounds answers "no", although the clipped box still contains the very points the faces share with the
+box (`clip_contains`).  So the leaves must be handed the caller's box. -/
+example :
+    let f := grouped true (·.box) Box3.union [floorLeaf 0 0 1, floorLeaf 1 1 2]
+    let r : Box3 Rat := ⟨⟨1/4, 1/4, -1⟩, ⟨1/2, 1/2, 1⟩⟩
+    let node : Box3 Rat := ⟨⟨0, 0, 0⟩, ⟨2, 1, 0⟩⟩
+    WF3 f ∧ joinedRect3 r f = true ∧ f.items.any (fun l => l.rect r) = true ∧
+      f.items.any (fun l => l.rect (r.clip node)) = false ∧ (r.clip node).Contains ⟨1/4, 1/4, 0⟩ := by
+  intro f r node
+  have hs : ∀ l ∈ [floorLeaf 0 0 1, floorLeaf 1 1 2], LeafSound3 l := by
+    intro l hl
+    simp only [List.mem_cons, List.not_mem_nil, or_false] at hl
+    rcases hl with rfl | rfl <;> exact floorLeaf_sound _ _ _
+  obtain ⟨hi, hwf⟩ := grouped_collider_wf (K := Rat) true _ hs
+  refine ⟨hwf, ?_, ?_, ?_, ?_⟩
+  · rw [multi_rect_eq r f hwf, hi]; decide +kernel
+  · rw [hi]; decide +kernel
+  · rw [hi]; decide +kernel
+  · rw [clip_contains]; simp only [Box3.Contains, r, node]; norm_num
+
 /-- The k-d tree invariant is satisfiable with duplicates and equal split coordinates, and the
 nearest-neighbour search on such a tree returns the expected distance. -/
 example :
@@ -722,5 +822,19 @@ example : SortedInv [[0, 1, 2, 3], [3, 1, 0, 2], [2, 3, 1, 0]] (List.range 4) :=
   intro l hl
   simp only [List.mem_cons, List.not_mem_nil, or_false] at hl
   rcases hl with rfl | rfl | rfl <;> decide
+
+/-- The real split rule on a concrete scene over ℚ (three unit squares in a row and a far one, 2D): the hypotheses of
+`bvh_area_density_perm` hold and the tree is the expected one — the far object is cut off first. -/
+example :
+    let boxOf : Nat → Box2 Rat := fun i => if i = 3 then ⟨⟨10, 0⟩, ⟨11, 1⟩⟩ else ⟨⟨i, 0⟩, ⟨i + 1, 1⟩⟩
+    let sorted := [[0, 1, 2, 3], [2, 0, 3, 1]]
+    SortedInv sorted (List.range 4) ∧
+      newBVH (bvhSplit Box2.union boundsArea2 (fun k => (k : Rat)) boxOf) 4 sorted
+        = some (.node (.node (.node (.leaf 0) (.leaf 1)) (.leaf 2)) (.leaf 3)) := by
+  intro boxOf sorted
+  refine ⟨⟨by decide, by decide, ?_⟩, by decide +kernel⟩
+  intro l hl
+  simp only [sorted, List.mem_cons, List.not_mem_nil, or_false] at hl
+  rcases hl with rfl | rfl <;> decide
 
 end M3d.C08
